@@ -1,7 +1,7 @@
 import os
 
 SOLVER = os.environ.get("C19_SOLVER", "cadical")
-KF = {"KF_AVAIL_FRESH": None}   # known-finding guards in force: {"KF_<NAME>": None}
+KF = {} if os.environ.get("C19_NOKF") else {"KF_AVAIL_FRESH": None}   # known-finding guards in force: {"KF_<NAME>": None}
 
 META = {
     "bounds": "TBD",
@@ -15,7 +15,7 @@ META = {
 def ring_job(pat, size=8, mbs=2, nr=1, round0=None, timeout=None, extra=None, pi=None, px=None, tag=""):
     """pat: one letter per step (w writer, g get+inc, a avail+full read, i rpos_init, r any reader op, x any)"""
     blocks = size // mbs
-    defs = {"SIZE": size, "MBS": mbs, "PAT": '"%s"' % pat, "NR": nr, "TYPED_RBUF": None}
+    defs = {"SIZE": size, "MBS": mbs, "PAT": '"%s"' % pat, "NR": nr, "TYPED_RBUF": None, "IOVTAB": blocks + 3}
     if round0 is not None:
         defs["ROUND0"] = round0
     defs.update(KF)
@@ -38,6 +38,6 @@ def ring_job(pat, size=8, mbs=2, nr=1, round0=None, timeout=None, extra=None, pi
 
 def jobs(tier):
     out = []
-    for pat in ("x", "xx", "wwg", "wwa", "wwwg", "wwwa", "wgwg"):
+    for pat in os.environ.get("C19_PATS", "x xx vvg vva vvvg vvva vgvg").split():
         out.append(ring_job(pat))
     return out
